@@ -1348,6 +1348,37 @@ def ld_length_array (weight : Int → Except String Int) (lengths : List Rat) (a
     return out
 
 
+def b_z_coordinates(S):
+    """`check_for_z_coordinates` (some geometry has Z) and `remove_z_coordinates_from_geodata` (frame branch): the new geometries come from
+    `.geometry.apply(...)` -- which keeps the index labels -- and are assigned back as a column, i.e. aligned BY LABEL. Rows are (label, data, geometry);
+    the assignment is the prelude's `pyAssignAligned` (positional for identical indexes, else re-indexing with pandas' ValueError for duplicate labels)."""
+    src0 = S[GENERAL]
+    out = translate_function(
+        src0, "check_for_z_coordinates", "check_for_z_coordinates", {"geodata": "List G"}, "Bool",
+        {"any((geom.has_z for geom in geodata.geometry.values if hasattr(geom, 'has_z')))": "(List.any geodata (fun geom => has_attr geom && has_z geom))"},
+        types={"any((geom.has_z for geom in geodata.geometry.values if hasattr(geom, 'has_z')))": "Bool"},
+        extra_params=[("{G}", "Type"), ("has_attr", "G → Bool"), ("has_z", "G → Bool")], default_num="Nat")
+    src = standalone(src0, "remove_z_coordinates_from_geodata", [
+        (r'    if isinstance\(geodata_without_z, gpd\.GeoDataFrame\):\n        geodata_without_z\["geometry"\] = geodata_without_z_geometries\n    else:\n        geodata_without_z = geodata_without_z_geometries\n',
+         "    geodata_without_z = assign_geometry(geodata_without_z, geodata_without_z_geometries)\n"),
+    ])
+    if "assign_geometry(" not in src or "else:" in src.split("geodata_without_z = geodata.copy()")[1]:
+        raise Untranslatable("remove_z_coordinates_from_geodata: the frame / series dispatch around the column assignment changed")
+    ROWS = "List (L × D × G)"
+    C = {"geodata.copy()": "geodata",
+         "geodata_without_z.geometry.apply(remove_z_coordinates)": "(List.map (fun r => (r.1, dropz r.2.2)) geodata_without_z)",
+         "isinstance(geodata_without_z, gpd.GeoDataFrame)": "true", "isinstance(geodata_without_z, (gpd.GeoDataFrame, gpd.GeoSeries))": "true",
+         "assign_geometry(geodata_without_z, geodata_without_z_geometries)": "(pyAssignAligned geodata_without_z geodata_without_z_geometries nan)"}
+    T = {"geodata.copy()": ROWS, "geodata_without_z": ROWS, "geodata_without_z.geometry.apply(remove_z_coordinates)": "List (L × G)", "geodata_without_z_geometries": "List (L × G)",
+         "isinstance(geodata_without_z, gpd.GeoDataFrame)": "Bool", "isinstance(geodata_without_z, (gpd.GeoDataFrame, gpd.GeoSeries))": "Bool",
+         "assign_geometry(geodata_without_z, geodata_without_z_geometries)": "Except " + ROWS}
+    out += "\n" + translate_function(
+        src, "remove_z_coordinates_from_geodata", "remove_z_coordinates_from_geodata", {"geodata": ROWS}, ROWS, C, types=T, raises=True,
+        extra_params=[("{L}", "Type"), ("{D}", "Type"), ("{G}", "Type"), ("[BEq L]", ""), ("dropz", "G → G"), ("nan", "G")],
+        slice_from="geodata_without_z = geodata.copy()", default_num="Nat", join="tuple")
+    return out
+
+
 def b_dedupe(S):
     """`filter_non_unique_traces`: the key of a trace is its WKT at `int(-log10(snap))` decimals (a parameter of type K); the first trace with
     a key is kept, later ones with the same key are dropped, order preserved"""
@@ -2310,6 +2341,7 @@ ITEMS: List[Item] = [
     Item("IndexMargins", GENERAL, ["C16"], b_index_margins, extra_modules=[PROX]),
     Item("CropPipeline", GENERAL, ["C07", "C04", "C14", "C18"], b_crop_pipeline, deps=["CropHelpers"]),
     Item("LineDataCache", LINEDATA, ["C08", "C15", "C11"], b_line_data, extra_modules=[GENERAL]),
+    Item("ZCoordinates", GENERAL, ["C03", "C07", "C09", "C11"], b_z_coordinates),
     Item("Cli", CLI, ["C19"], b_cli),
     Item("ErrorColumn", TVAL, ["C19", "C13"], b_error_column),
     Item("DetermineIntersect", REL, ["C12"], b_determine_intersect),
